@@ -297,8 +297,33 @@ def tail_open(sem, cap=300):
     return out - {rx.END}
 
 
+def sem_equiv(a, b, cap=400):
+    """language equality of two derivative states (bisimulation over class representatives); True when the budget runs out -
+    callers use this to *exclude* programs, so the doubtful answer is the excluding one"""
+    seen = set()
+    todo = [(a, b)]
+    while todo:
+        x, y = todo.pop()
+        if x == y or (x, y) in seen:
+            continue
+        if rx.nullable(x) != rx.nullable(y):
+            return False
+        seen.add((x, y))
+        if len(seen) > cap:
+            return True
+        for part in rx.partition(rx.sets_in(x) | rx.sets_in(y)):
+            c = min(part)
+            dx, dy = rx.deriv(x, c), rx.deriv(y, c)
+            if (dx == rx.EMPTY) != (dy == rx.EMPTY):
+                return False
+            if dx != rx.EMPTY:
+                todo.append((dx, dy))
+    return True
+
+
 def reentrant(sem, cap=200):
-    """some non-empty string brings the pattern back to its initial derivative state"""
+    """some non-empty string brings the pattern back to a state with the language of its initial state (nmfu minimises regex
+    automata, so such a state *is* the initial state there)"""
     seen = set()
     todo = [sem]
     first = True
@@ -309,7 +334,7 @@ def reentrant(sem, cap=200):
             d = rx.deriv(q, c)
             if d == rx.EMPTY:
                 continue
-            if d == sem:
+            if d == sem or (rx.nullable(d) == rx.nullable(sem) and rx.first(d) == rx.first(sem) and sem_equiv(d, sem)):
                 return True
             if d not in seen:
                 seen.add(d)
